@@ -1907,6 +1907,7 @@ impl<'p> Evaluator<'_, 'p> {
                 map_func: map_func.clone(),
             });
             self.check_thunk_args_and_execute_call(&filter_func, &[item.view()], &[], None)?;
+            self.delay_trace_item();
         }
 
         Ok(())
@@ -2042,6 +2043,7 @@ impl<'p> Evaluator<'_, 'p> {
             self.state_stack
                 .push(State::StdFilterCheck { item: item.view() });
             self.check_thunk_args_and_execute_call(&func, &[item.view()], &[], None)?;
+            self.delay_trace_item();
         }
 
         Ok(())
@@ -2531,6 +2533,7 @@ impl<'p> Evaluator<'_, 'p> {
                     index: i,
                 });
                 self.check_thunk_args_and_execute_call(&keyf, &[array[i].view()], &[], None)?;
+                self.delay_trace_item();
             }
         }
 
@@ -3333,6 +3336,7 @@ impl<'p> Evaluator<'_, 'p> {
                     index: i,
                 });
                 self.check_thunk_args_and_execute_call(&keyf, &[array[i].view()], &[], None)?;
+                self.delay_trace_item();
             }
         }
 
